@@ -145,11 +145,7 @@ func (x *runner) exec(r string) bool {
 	} else {
 		e["app"] = hex.EncodeToString(res.AppHash)[:32]
 		e["store"] = rp.c.StoreDigest()[:32]
-		h := sha256.New()
-		for _, t := range res.Txs {
-			fmt.Fprintf(h, "%d|%s|%x\n", t.Code, t.Codespace, t.Data)
-		}
-		e["results"] = hex.EncodeToString(h.Sum(nil))[:32]
+		e["results"] = chain.ResultsDigest(res.Txs)[:32]
 		st := chain.M{}
 		for k, v := range rp.c.PerStoreDigest() {
 			st[k] = v
@@ -158,6 +154,24 @@ func (x *runner) exec(r string) bool {
 	}
 	x.w.Write(e, chain.M{})
 	return true
+}
+
+// live emits what the recording run itself computed, as replica "live": it ran
+// at an earlier wall-clock time, in another process, with the post handler on.
+func (x *runner) live() {
+	for _, b := range x.rec.Blocks {
+		if b.App == "" && !b.Halt {
+			continue
+		}
+		e := ev("Exec", "live", b.Height)
+		e["ntx"] = int64(len(b.Txs))
+		e["rec"] = filepath.Base(x.rec.Path)
+		e["halt"] = b.Halt
+		if !b.Halt {
+			e["app"], e["store"], e["results"] = b.App[:32], b.Store[:32], b.Results[:32]
+		}
+		x.w.Write(e, chain.M{})
+	}
 }
 
 func (x *runner) restart(r string) {
@@ -237,6 +251,7 @@ func driver(mode string, fl *drv.Flags) error {
 				init["rec"] = filepath.Base(rp)
 				w.Write(init, chain.M{})
 			}
+			x.live()
 			for _, s := range sch {
 				r := chain.Str(s, "r")
 				switch chain.Str(s, "name") {
